@@ -314,8 +314,10 @@ def write_evidence(ctx, pm, lean, violations_n):
         'wall_s': round(ctx.elapsed(), 2),
         'violations': violations_n,
     }
-    os.makedirs(os.path.join(VERIF, 'evidence'), exist_ok=True)
-    path = os.path.join(VERIF, 'evidence', f'{ctx.prop}.json')
+    # evidence/ describes runs against /repo itself; a run against another tree (VERIF_REPO: seeded changes, mutants) writes elsewhere
+    edir = os.path.join(VERIF, 'evidence') if os.path.abspath(REPO) == '/repo' else os.path.join(VERIF, 'replays', 'evidence_other_tree')
+    os.makedirs(edir, exist_ok=True)
+    path = os.path.join(edir, f'{ctx.prop}.json')
     tmp = path + '.tmp'
     with open(tmp, 'w') as f:
         json.dump(ev, f, indent=1, ensure_ascii=True, default=str)
